@@ -141,6 +141,15 @@ def outputNoCb (E : Engine σ α) (cfg : Cfg α β) (s : St σ) (len : Nat) : St
   ({ s with eng := rs.map (·.2), clips := s.clips + cv.2.1.sum, seed := cv.2.2, clipsBy := addV s.clipsBy cv.2.1 },
    done, cv.1)
 
+def St.setFlushing (s : St σ) : St σ := { s with flushing := true }
+def St.setError (s : St σ) (e : Err) : St σ := { s with error := some e }
+
+/-- `if (odone0 == len0 || !p->input_fn || p->flushing) break;` -/
+def stopNow (s1 : St σ) (odone0' len0 : Nat) : Bool := odone0' == len0 || s1.fn.isNone || s1.flushing
+
+/-- `while (odone || idone || (!was_flushing && p->flushing))` (`was_flushing` is false where this is evaluated) -/
+def goOn (s2 : St σ) (odone idone : Nat) : Bool := odone != 0 || idone != 0 || s2.flushing
+
 def appendCh (acc outs : List (List β)) : List (List β) := List.zipWith (· ++ ·) acc outs
 
 /-- the `do … while` loop of `soxr_output`; `rs` = the answers the input function will give -/
@@ -152,19 +161,19 @@ def pullLoop (E : Engine σ α) (cfg : Cfg α β) (ilen len0 : Nat) :
     let odone := r1.2.1
     let odone0' := odone0 + odone
     let acc' := appendCh acc r1.2.2
-    if odone0' = len0 ∨ s1.fn.isNone ∨ s1.flushing then (s1, odone0', acc')
+    if stopNow s1 odone0' len0 then (s1, odone0', acc')
     else match rs with
       | [] =>
         -- the function answers "no more input": soxr_input(p, in, 0) sets flushing; the loop condition holds
         -- (!was_flushing && p->flushing); next iteration: deliver, then `break` on p->flushing
-        let r3 := outputNoCb E cfg { s1 with flushing := true } (olen - odone)
+        let r3 := outputNoCb E cfg s1.setFlushing (olen - odone)
         (r3.1, odone0' + r3.2.1, appendCh acc' r3.2.2)
       | r :: rs' =>
         match r ilen with
-        | .fail => ({ s1 with error := some .fnFail }, odone0', acc')
+        | .fail => (s1.setError .fnFail, odone0', acc')
         | .data n b =>
           let s2 := (input E cfg s1 (some b) n).1
-          if odone ≠ 0 ∨ n ≠ 0 ∨ s2.flushing then pullLoop E cfg ilen len0 rs' s2 (olen - odone) odone0' acc'
+          if goOn s2 odone n then pullLoop E cfg ilen len0 rs' s2 (olen - odone) odone0' acc'
           else (s2, odone0', acc')
 
 /-- `soxr_output` -/
@@ -174,6 +183,16 @@ def output (E : Engine σ α) (cfg : Cfg α β) (s : St σ) (outPresent : Bool) 
   else if outPresent = false ∧ len0 ≠ 0 then ({ s with error := some .nullOut }, 0, blank cfg.ch)
   else pullLoop E cfg (min (s.fn.getD 0) (cfg.iForO len0)) len0 replies s len0 0 (blank cfg.ch)
 
+/-- `if (in) soxr_input_1ch(p, u, in[u], ilen)` for channel `i` -/
+def feed1 (E : Engine σ α) (cfg : Cfg α β) (inb : Option (InBuf β)) (ilen i : Nat) (e : σ) : σ :=
+  match inb with
+  | some b => E.input e ((decodeIn cfg ilen b i).map cfg.cin)
+  | none => e
+
+/-- … for all channels at once -/
+def feedOpt (E : Engine σ α) (cfg : Cfg α β) (eng : List σ) (inb : Option (InBuf β)) (ilen : Nat) : List σ :=
+  eng.mapIdx (fun k e => feed1 E cfg inb ilen k e)
+
 /-- the both-split loop of `soxr_process` as written: for each channel `u` in turn: input (if `in`), then
     `soxr_output_1ch(…, separated = true)` — conversion with the shared seed, `clips +=`, `odone` overwritten.
     Result: engines, outputs, clips per channel, seed, `odone` (none if there is no channel). -/
@@ -181,10 +200,7 @@ def splitLoop (E : Engine σ α) (cfg : Cfg α β) (flushing : Bool) (inb : Opti
     Nat → List σ → Nat → List σ × List (List β) × List Nat × Nat × Option Nat
   | _, [], seed => ([], [], [], seed, none)
   | i, e :: es, seed =>
-    let e1 := match inb with
-      | some b => E.input e ((decodeIn cfg ilen b i).map cfg.cin)
-      | none => e
-    let r := out1 E flushing e1 olen
+    let r := out1 E flushing (feed1 E cfg inb ilen i e) olen
     let cv := cfg.cout seed r.1
     let rest := splitLoop E cfg flushing inb ilen olen (i + 1) es cv.2.2
     (r.2 :: rest.1, cv.1 :: rest.2.1, cv.2.1 :: rest.2.2.1, rest.2.2.2.1, some (rest.2.2.2.2.getD r.1.length))
@@ -195,13 +211,20 @@ structure ProcRes (σ β : Type) where
   odone : Nat
   out : List (List β)
 
+/-- `ilen` of `soxr_process`: 0 without input, else `soxr_i_for_o` when the caller wants `idone`, else `ilen0` -/
+def procIlen (cfg : Cfg α β) (inb : Option (InBuf β)) (ilen0 : Nat) (wantIdone : Bool) (olen : Nat) : Nat :=
+  if inb.isNone then 0 else if wantIdone then min (cfg.iForO olen) ilen0 else ilen0
+
+/-- `p->flushing |= ilen == ilen0 && flush_requested;` -/
+def procFlush (cfg : Cfg α β) (s : St σ) (inb : Option (InBuf β)) (ilen0 : Nat) (flushReq wantIdone : Bool) (olen : Nat) : St σ :=
+  { s with flushing := s.flushing ||
+      (procIlen cfg inb ilen0 wantIdone olen == (if inb.isNone then 0 else ilen0) && (flushReq || inb.isNone)) }
+
 /-- `soxr_process`.  `flushReq` = the caller passed `~ilen0`; `wantIdone` = `idone0 != NULL`. -/
 def process (E : Engine σ α) (cfg : Cfg α β) (s : St σ) (inb : Option (InBuf β)) (ilen0 : Nat)
     (flushReq wantIdone outPresent : Bool) (olen : Nat) (replies : List (Nat → FnReply β)) : ProcRes σ β :=
-  let flushRequested := flushReq || inb.isNone
-  let ilen0' := if inb.isNone then 0 else ilen0
-  let ilen := if inb.isNone then 0 else if wantIdone then min (cfg.iForO olen) ilen0 else ilen0
-  let s0 : St σ := { s with flushing := s.flushing || (ilen == ilen0' && flushRequested) }
+  let ilen := procIlen cfg inb ilen0 wantIdone olen
+  let s0 : St σ := procFlush cfg s inb ilen0 flushReq wantIdone olen
   if outPresent = false ∧ inb.isNone then { st := s0, idone := ilen, odone := 0, out := blank cfg.ch }
   else if cfg.isplit ∧ cfg.osplit then
     let r := splitLoop E cfg s0.flushing inb ilen olen 0 s0.eng s0.seed
